@@ -427,4 +427,6 @@ def run(ctx):
     # the vDSO address likewise (same rule instance as C18/auxv)
     from rules import c18 as _c18a
     _c18a.rule_auxv(ctx, R="C13/auxv")
+    from rules import c04 as _c04mm
+    _c04mm.rule_mapping_list_mutators(ctx)
 
